@@ -58,6 +58,11 @@ theorem C10_close_is_local (s s' : T.State) (q : Nat) (h : T.step s (.cClose q) 
 theorem C10_poll_mode_teardown_closes_streams :
     (Gen.streamPollTeardownClosesStreams && Gen.pollReadAndDispatchUnderReceiveLock) = true := by decide
 
+/-- T's server teardown processes what is left in the decode queue BEFORE it stops the streams
+    (so a stream whose open request was read just before the end is stopped too): the order of
+    ServeCodec's teardown in the source read on this run. -/
+theorem C10_teardown_order : Gen.streamServerTeardownOrder = true := by decide
+
 /-- T's `read` step (test `closed`, else take an event, else park) is one step because ReadMessage
     tests the flag under the stream's mutex — the mutex cond.Wait releases — so that stop() cannot
     fall between the test and the wait (fact read from stream.go). -/
